@@ -27,7 +27,7 @@ from vf.props.c29 import edit
 LEVEL = "exploration"
 RULE = (
     "Hypothesis: pools of 3-6 members (expressions of one type, or forms) = independent recipes, re-built copies, "
-    "one-edit variants and terminal twins that differ in one datum (count, shape, function space, number, part, literal "
+    "one-edit variants and terminal twins that differ in one datum (count, shape, function space, its label, number, part, literal "
     "type); 5-25 generated operations (==, !=, in set, dict lookup, sorted_expr, hash, str, pickle round trip, "
     "eval(repr)) between random members with invariants re-checked after each. non-trivial = the pool holds at least "
     "one pair of equal-but-distinct objects and one pair of near-duplicates that must differ; distinct = distinct "
@@ -42,7 +42,7 @@ CASE_TIMEOUT = {"quick": 20, "thorough": 60}
 OPS = {"arith", "math", "cond", "index", "tensor", "compound", "deriv", "pow", "abs", "var", "sign", "bessel"}
 PROF = Profile(ops=OPS, leaves={"coef", "const", "lit", "x", "geo", "zero", "eye", "arg"}, max_rank=2, elements="all",
                manifolds=True, weights={"var": 2}, nindex=3, args=((0, "any"),))
-TWINS = ["coef_count", "coef_space", "const_count", "const_shape", "arg_number", "arg_part", "lit_type", "index", "var_label",
+TWINS = ["fs_label", "lit_precision", "coef_count", "coef_space", "const_count", "const_shape", "arg_number", "arg_part", "lit_type", "index", "var_label",
          "var_label"]
 
 
@@ -115,6 +115,10 @@ class TwinBuilder(SharedBuilder):
 
             V2 = ufl.FunctionSpace(base.mesh, make_element(["DG", 3, []], base.cell))
             self.fields["f0"] = ufl.Coefficient(V2, count=f0.count())
+        elif twin == "fs_label":
+            # the same space with a label (same element, mesh and coefficient count)
+            V2 = ufl.FunctionSpace(base.mesh, f0.ufl_element(), label="boundary")
+            self.fields["f0"] = ufl.Coefficient(V2, count=f0.count())
         elif twin == "const_count":
             self.fields["c0"] = ufl.Constant(base.mesh)
         elif twin == "const_shape":
@@ -145,6 +149,11 @@ class TwinBuilder(SharedBuilder):
             import ufl
 
             return ufl.as_ufl(float(r[1]))
+        if self.twin == "lit_precision" and r[0] == "lit" and isinstance(r[1], float):
+            # a literal that agrees with the original to the 3 digits that reprs show in this case
+            import ufl
+
+            return ufl.as_ufl(r[1] * (1 + 2e-5))
         return super().build(r)
 
 
@@ -172,6 +181,34 @@ def same(a, b):
 
 
 def check_case(case):
+    """(with the twin 'lit_precision' float literals are printed with 3 digits: ufl.constantvalue.precision)"""
+    import ufl.constantvalue as cv
+
+    old = cv.precision
+    try:
+        if case["twin"] == "lit_precision":
+            cv.precision = 3
+        return _check_case(case)
+    finally:
+        cv.precision = old
+
+
+def corresponding_terminals_equal(a, b):
+    """a == b must imply: the pre-order traversals have the same node types and pairwise equal terminals"""
+    from ufl.corealg.traversal import pre_traversal
+
+    ta, tb = list(pre_traversal(a)), list(pre_traversal(b))
+    if len(ta) != len(tb):
+        return False
+    for x, y in zip(ta, tb):
+        if type(x) is not type(y):
+            return False
+        if x._ufl_is_terminal_ and not (x == y):
+            return False
+    return True
+
+
+def _check_case(case):
     import ufl
     from ufl.algorithms import compute_form_data
     from ufl.algorithms.signature import compute_expression_signature
@@ -246,6 +283,8 @@ def check_case(case):
                     raise Violation(f"a == b but repr differs: {repr(a)[:120]} vs {repr(b)[:120]}", {"kind": "eq-repr"})
                 if skey(a) != skey(b):
                     raise Violation(f"a == b but the structures differ: {str(a)[:100]} vs {str(b)[:100]}", {"kind": "eq-structure"})
+                if not case["forms"] and not corresponding_terminals_equal(a, b):
+                    raise Violation(f"a == b but corresponding terminals are not equal: {str(a)[:100]} vs {str(b)[:100]}", {"kind": "eq-terminals"})
                 if not case["forms"] and (a.ufl_shape != b.ufl_shape or a.ufl_free_indices != b.ufl_free_indices):
                     raise Violation("a == b but shape / free indices differ", {"kind": "eq-type"})
                 if case["forms"]:
@@ -258,7 +297,7 @@ def check_case(case):
                 if sa != sb:
                     raise Violation("a == b but the signatures differ", {"kind": "eq-signature"})
             else:
-                if skey(a) == skey(b):
+                if skey(a) == skey(b) and case["twin"] != "lit_precision":
                     raise Violation(f"structurally identical (same terminals by repr) but a != b: {str(a)[:100]}", {"kind": "identical-not-equal"})
                 if twin_of[i] != twin_of[j]:
                     twin_pairs += 1
@@ -297,7 +336,7 @@ def check_case(case):
                 raise Violation(f"pickle round trip raised {type(ex).__name__}: {str(ex)[:200]}", {"kind": "pickle-raised"})
             if not same(c, a) or repr(c) != repr(a):
                 raise Violation("pickle.loads(pickle.dumps(e)) != e", {"kind": "pickle-roundtrip"})
-        elif op == "evalrepr":
+        elif op == "evalrepr" and case["twin"] != "lit_precision":  # (a reduced precision makes reprs lossy on purpose)
             ns = ns or eval_ns()
             try:
                 c = eval(repr(a), dict(ns))
